@@ -320,6 +320,20 @@ static inline int spec_gm_div_u32_lane_ok(uint32_t q, uint32_t r, uint32_t n, ui
   uint32_t qq = spec_shr_u32(t1 + (sh1 ? ((n - t1) >> 1) : (n - t1)), sh2);
   return q == qq && (r == (uint32_t)(n - (uint32_t)AVM_MUL_u64((uint64_t)qq, (uint64_t)d)) || r == (uint32_t)(n - (uint32_t)AVM_MUL_u64((uint64_t)d, (uint64_t)qq)));
 }
+/* high half of a 64 x 64 product from four 32 x 32 partial products with the carry of the middle column (schoolbook):
+ * lemma L6 (mulhi_partial, AvelLemmas.lean): equals floor(a * b / 2^64).  Portable branch of Denominator<uint64_t>::div. */
+static inline uint64_t spec_mulhi64_pp(uint64_t a, uint64_t b) {
+  uint64_t a_lo = (uint32_t)a, a_hi = a >> 32, b_lo = (uint32_t)b, b_hi = b >> 32;
+  uint64_t hh = AVM_MUL_u64(a_hi, b_hi), hl = AVM_MUL_u64(a_hi, b_lo), lh = AVM_MUL_u64(b_hi, a_lo), ll = AVM_MUL_u64(a_lo, b_lo);
+  uint64_t carry = ((uint64_t)(uint32_t)hl + (uint64_t)(uint32_t)lh + (ll >> 32)) >> 32;
+  return hh + (hl >> 32) + (lh >> 32) + carry;
+}
+static inline int spec_gm_div_u64_pp_ok(uint64_t q, uint64_t r, uint64_t n, uint64_t m, uint64_t sh2, uint64_t d) {
+  if (d == 1) return q == n && r == 0;
+  uint64_t t1 = spec_mulhi64_pp(m, n);
+  uint64_t qq = (t1 + ((n - t1) >> 1)) >> sh2;
+  return q == qq && r == n - AVM_MUL_u64(qq, d);
+}
 static inline int spec_gm_div_u64_ok(uint64_t q, uint64_t r, uint64_t n, uint64_t m, uint64_t sh2, uint64_t d) {
   if (d == 1) return q == n && r == 0;
   uint64_t t1 = (uint64_t)(AVM_MUL_u128((unsigned __int128)m, (unsigned __int128)n) >> 64);
